@@ -1844,6 +1844,12 @@ class Parallel(Logger):
                 self._nb_consumed += 1
                 yield result
 
+        # The loop can end (or never start) while a failure is registered:
+        # e.g. when the input iterable raised with `pre_dispatch="all"` and
+        # no task is left to wait for. Do not return as if nothing happened.
+        if self._aborting:
+            self._raise_error_fast()
+
     def _raise_error_fast(self):
         """If we are aborting, raise if a job caused an error."""
 
